@@ -1006,6 +1006,41 @@ fn native_spec() {
                 }
             }
         }
+    } else if target == "long_flag_subcommand_value" {
+        // C02: `--name=value` where name is a long flag subcommand: the value must not vanish
+        for (argv, what) in [(vec!["p", "--sync=foo", "bar"], "attached value on a long flag subcommand"), (vec!["p", "--sync", "bar"], "control")] {
+            let cmd = Command::new("p").subcommand(Command::new("sync").long_flag("sync").arg(Arg::new("x").num_args(0..).action(ArgAction::Append)));
+            match cmd.try_get_matches_from(argv.clone()) {
+                Ok(m) => {
+                    let x: Vec<String> = m.subcommand_matches("sync").and_then(|s| s.get_many::<String>("x").map(|v| v.cloned().collect())).unwrap_or_default();
+                    let consumed = argv.iter().skip(1).all(|t| !t.contains('=') || x.iter().any(|v| t.ends_with(v.as_str())));
+                    if !consumed {
+                        println!("SPEC-REPLAY MISMATCH target=long_flag_subcommand_value case={what} {argv:?}: accepted as subcommand {:?} with x={x:?}; the token `foo` was neither consumed nor rejected", m.subcommand_name());
+                    }
+                }
+                Err(_) => {}
+            }
+        }
+    } else if target == "long_flag_alias_inference" {
+        // C08: with infer_subcommands a subcommand reachable only through long-flag ALIASES takes part in prefix inference
+        let mk = || Command::new("p").infer_subcommands(true).subcommand(Command::new("sync").long_flag_alias("temp")).subcommand(Command::new("query").long_flag("test"));
+        for (tok, want) in [("--temp", Some("sync")), ("--tem", Some("sync")), ("--test", Some("query")), ("--tes", Some("query")), ("--te", None)] {
+            let got = mk().try_get_matches_from(["p", tok]).ok().and_then(|m| m.subcommand_name().map(|s| s.to_string()));
+            if got.as_deref() != want {
+                println!("SPEC-REPLAY MISMATCH target=long_flag_alias_inference case=alias-only long flag subcommand, token {tok}: resolved to {got:?}, expected {want:?}");
+            }
+        }
+    } else if target == "option_sort_key_kinds" {
+        // C12: a short flag and a long-only option whose name equals the short's sort key are both listed
+        for (sh, lg) in [('l', "l0"), ('L', "l1"), ('x', "x0")] {
+            let mut cmd = Command::new("p").disable_help_flag(true)
+                .arg(Arg::new("s").short(sh).action(ArgAction::SetTrue).help("zzshort help").display_order(1))
+                .arg(Arg::new("g").long(lg).action(ArgAction::SetTrue).help("zzlong help").display_order(1));
+            let h = cmd.render_help().to_string();
+            if !h.contains("zzshort help") || !h.contains("zzlong help") {
+                println!("SPEC-REPLAY MISMATCH target=option_sort_key_kinds case=short -{sh} and long --{lg} with equal display_order: short listed={}, long listed={}", h.contains("zzshort help"), h.contains("zzlong help"));
+            }
+        }
     } else if target == "match_arg_error" {
         // C10: the error kind names a rule the input really breaks
         for acws in [false, true] {
